@@ -53,7 +53,8 @@ impl Distribution for Uniform {
 
 impl Distribution1D for Uniform {
     fn update(&mut self, params: &[f64]) {
-        self.set_lower(params[0]).set_upper(params[1]);
+        // validate the new bounds against each other, not against the old ones
+        *self = Self::new(params[0], params[1]);
     }
 }
 
